@@ -465,6 +465,7 @@ pub fn run(sc: &Value) -> Vec<String> {
     }));
     let world: Shared = Arc::new(Mutex::new(world));
     install_dialer(&world);
+    let _ = life_take();
 
     // ---- build the request through the public API
     let url_rec = &req["url"];
@@ -525,7 +526,9 @@ pub fn run(sc: &Value) -> Vec<String> {
             }
         }
         fn fin<B: attohttpc::body::Body>(rb: attohttpc::RequestBuilder<B>) -> Result<(u16, String), String> {
-            let rp = rb.send().map_err(|e| {
+            let sent = rb.send();
+            life_push(if sent.is_ok() { "ok" } else { "err" }, 0);
+            let mut rp = sent.map_err(|e| {
                 if let attohttpc::ErrorKind::ConnectError { body, .. } = e.kind() {
                     let pat: Vec<u8> = (0..body.len()).map(|i| b"PROXYBODY"[i % 9]).collect();
                     format!("{}|{}|{}", err_kind(&e), body.len(), lcp(body, &pat))
@@ -533,7 +536,14 @@ pub fn run(sc: &Value) -> Vec<String> {
                     err_kind(&e)
                 }
             })?;
-            Ok((rp.status().as_u16(), rp.url().as_str().to_string()))
+            let out = (rp.status().as_u16(), rp.url().as_str().to_string());
+            // the caller reads some of the body (or none) and drops the response
+            if out.1.len() % 2 == 0 {
+                let mut b = [0u8; 1];
+                let _ = std::io::Read::read(&mut rp, &mut b);
+            }
+            drop(rp);
+            Ok(out)
         }
         let len = gu(&body_spec, "len");
         match gs(&body_spec, "kind") {
@@ -565,6 +575,8 @@ pub fn run(sc: &Value) -> Vec<String> {
         }
     }));
     uninstall_dialer();
+    life_push("end", 0);
+    let life = life_take();
     let _ = std::fs::remove_file(&tmpfile);
 
     // ---- project what was written on each connection
@@ -692,6 +704,10 @@ pub fn run(sc: &Value) -> Vec<String> {
         }
     }
     out.push(done.to_string());
+    // a panic leaves the call without a return token: the lifecycle is only judged for calls that returned
+    if done["res"] != json!("panic") && life.iter().any(|t| t[0] == "ok" || t[0] == "err") {
+        out.push(json!({"ev":"life","toks":life}).to_string());
+    }
     out
 }
 
